@@ -43,5 +43,7 @@ Definition lock_listed (base resolved : list bpkg) : list bpkg := filter (fun r 
 Definition skip_key (p : bpkg) : string := glookup install_skip_arg [("PackageName()", bp_name p); ("Name", bp_name p); ("ChecksumString()", bp_checksum p)].
 Definition name_installed (installed : list bpkg) (p : bpkg) : bool :=
   existsb (fun q => geval [("arg", skip_key p); ("installed.Name", bp_name q); ("installed.ChecksumString()", bp_checksum q)] is_installed_test) installed.
+(* the installed database is rewritten AFTER the whole list has been installed ("update the installed file" follows g.Wait()),
+   so the test sees what was installed BEFORE this call (the base image), never the packages of the same call *)
 Definition install_on (installed listed : list bpkg) : list bpkg :=
-  fold_left (fun inst p => if name_installed inst p then inst else inst ++ [p]) listed installed.
+  installed ++ filter (fun p => negb (name_installed installed p)) listed.
